@@ -153,6 +153,12 @@ func checkC09(c *Ctx) {
 	c09ExtAgree(c)
 	c09SignedBytes(c)
 	c09BitStrings(c)
+	c09HashSelection(c)
+	if n := pointWidth(c, "P-WIDTH-point", []string{"x509", "sm2"}); n > 0 {
+		c.Holds("P-WIDTH-point", "x509, sm2", "no point is encoded as 0x04 || X.Bytes() || Y.Bytes()", fmt.Sprintf("%d append chains inspected", n), token.NoPos)
+	}
+	noGlobalWrites(c, "FX-C09-pure", [][2]string{{"x509", "(*Certificate).CheckSignatureFrom"}, {"x509", "(*Certificate).CheckSignature"}, {"x509", "(*Certificate).CheckCRLSignature"}, {"x509", "(*CertificateRequest).CheckSignature"}},
+		"the verdict depends on earlier calls — e.g. a cache of verified certificates keyed by the child only makes a certificate verify under any issuer after it verified under its own")
 }
 
 // c09Creator: evaluate the raw/digest predicate of one creator over all models
@@ -893,4 +899,71 @@ func c09BitStrings(c *Ctx) {
 	} else {
 		c.Holds(rule, "x509", "no signature value is read through BitString.Bytes", fmt.Sprintf("%d RightAlign() calls", nRight), token.NoPos)
 	}
+}
+
+// c09HashSelection: when the template names a signature algorithm, the hash used to digest the to-be-signed bytes is
+// the one of that algorithm's table row. signingParamsForPublicKey returns the hash as a result: among the values that
+// can flow into that result there must be a load of the `hash` field of a signatureAlgorithmDetails row (otherwise
+// the key type's default hash is kept while the object announces another one, and nothing it issues verifies).
+func c09HashSelection(c *Ctx) {
+	rule := "T-SIGALG"
+	f := c.Fn("x509", "signingParamsForPublicKey")
+	if f == nil {
+		c.Missing(rule, "x509.signingParamsForPublicKey", "function", "not found")
+		return
+	}
+	// the crypto.Hash result
+	idx := -1
+	for i := 0; i < f.Signature.Results().Len(); i++ {
+		if strings.HasSuffix(f.Signature.Results().At(i).Type().String(), "Hash") {
+			idx = i
+		}
+	}
+	if idx < 0 {
+		c.Undecided(rule, fname(f), "hash of the requested algorithm", "no hash result", f.Pos())
+		return
+	}
+	found := false
+	seen := map[ssa.Value]bool{}
+	var walk func(v ssa.Value, d int)
+	walk = func(v ssa.Value, d int) {
+		if v == nil || d > 12 || seen[v] || found {
+			return
+		}
+		seen[v] = true
+		switch x := v.(type) {
+		case *ssa.Phi:
+			for _, e := range x.Edges {
+				walk(e, d+1)
+			}
+		case *ssa.UnOp:
+			if x.Op == token.MUL {
+				switch a := x.X.(type) {
+				case *ssa.FieldAddr:
+					if fieldName(a.X.Type(), a.Field) == "hash" {
+						found = true
+					}
+				case *ssa.Alloc:
+					// a named result spilled to memory: every store into it
+					for _, u := range *a.Referrers() {
+						if st, ok := u.(*ssa.Store); ok && st.Addr == ssa.Value(a) {
+							walk(st.Val, d+1)
+						}
+					}
+				}
+			}
+		case *ssa.Field:
+			if fieldName(x.X.Type(), x.Field) == "hash" {
+				found = true
+			}
+		case *ssa.Extract:
+			walk(x.Tuple, d+1)
+		}
+	}
+	for _, b := range f.Blocks {
+		if ret, ok := b.Instrs[len(b.Instrs)-1].(*ssa.Return); ok && idx < len(ret.Results) {
+			walk(ret.Results[idx], 0)
+		}
+	}
+	c.Check(found, rule, fname(f), "the digest hash is taken from the requested algorithm's table row", "", "no value of the returned hash function comes from the `hash` field of a signatureAlgorithmDetails row: a requested SignatureAlgorithm changes the announced OID but the bytes are digested with the key type's default hash, so every object issued with a non-default algorithm fails verification", f.Pos())
 }
